@@ -255,5 +255,5 @@ func ClockConcrete() {}
 
 // PreemptionBound: under the engine's thread model at most k context switches away from a thread
 // that could have continued are explored per path (switches at blocking points and thread exits
-// are free). 0 = unbounded.
+// are free). 0 = unbounded; a negative k = no preemption at all.
 func PreemptionBound(k int) {}
